@@ -198,6 +198,12 @@ func (ts *Terms) compute(v ssa.Value, fr *Frame, depth int) *Term {
 				return mk("param", "msg") // the request of a message handler, whatever it is called
 			}
 		}
+		// an unbound parameter holding an irismod record (iterator callbacks): name it by its type
+		if n := namedOf(x.Type()); n != nil && n.Obj().Pkg() != nil && strings.HasPrefix(n.Obj().Pkg().Path(), modPrefix) && strings.Contains(n.Obj().Pkg().Path(), "/types") {
+			if _, isStruct := n.Underlying().(*types.Struct); isStruct {
+				return mk("param", "‹"+n.Obj().Name()+"›")
+			}
+		}
 		return mk("param", x.Name())
 	case *ssa.FreeVar:
 		if fr != nil && fr.MC != nil {
